@@ -554,9 +554,9 @@ def oracle(ctx: Ctx, case: dict) -> None:
 
 
 def check(ctx: Ctx) -> None:
-    ctx.given(single_cases, lambda c: run_case(ctx, c), ctx.n(300, 16000))
-    ctx.given(array_cases(), lambda c: run_case(ctx, c), ctx.n(150, 8000))
-    ctx.given(name_cases(), lambda c: run_case(ctx, c), ctx.n(150, 8000))
+    ctx.given(single_cases, lambda c: run_case(ctx, c), ctx.n(600, 48000))
+    ctx.given(array_cases(), lambda c: run_case(ctx, c), ctx.n(300, 24000))
+    ctx.given(name_cases(), lambda c: run_case(ctx, c), ctx.n(300, 24000))
 
 
 def replay(ctx: Ctx, case: dict) -> None:
